@@ -292,7 +292,7 @@ func asJSONCase(c *Case) *Case {
 		if !strSourced(dc) {
 			continue
 		}
-		if t.T == "list" && f.Kind != KSlice && len(t.E) > 0 {
+		if t.T == "list" && !f.Kind.slice() && len(t.E) > 0 {
 			*t = t.E[0]
 		}
 		switch {
@@ -301,9 +301,17 @@ func asJSONCase(c *Case) *Case {
 		case t.T == "str" && f.Kind == KBool && !f.Str && (t.V == "true" || t.V == "false"):
 			*t = tB(t.V == "true")
 		case t.T == "list" && f.Kind == KSlice:
+			t.E = append([]Tok{}, t.E...) // the element slice is shared with the input family: copy before rewriting
 			for k, e := range t.E {
 				if e.T == "str" && isNumber(e.V) {
 					t.E[k] = tN(e.V)
+				}
+			}
+		case t.T == "list" && f.Kind == KSliceB:
+			t.E = append([]Tok{}, t.E...)
+			for k, e := range t.E {
+				if e.T == "str" && (e.V == "true" || e.V == "false") {
+					t.E[k] = tB(e.V == "true")
 				}
 			}
 		}
@@ -311,7 +319,7 @@ func asJSONCase(c *Case) *Case {
 	return n
 }
 
-var kindFeat = [...]string{"", "int8", "uint", "float64", "string", "bool", "ptr-int", "ptr-string", "nested", "slice", "map"}
+var kindFeat = [...]string{"", "int8", "uint", "float64", "string", "bool", "ptr-int", "ptr-string", "nested", "slice", "map", "slice-string", "slice-bool"}
 
 func features(c *Case, i int, fdKind string) []string {
 	f := c.Fields[i]
